@@ -463,7 +463,7 @@ KEYWORD_TEXTS = [
 ]
 
 
-def second_parser_phase(ctx, env, items):
+def second_parser_phase(ctx, env, items, only=None):
     """The parser an application gets SECOND in a process: for the other kind of tree node, obtained through Environment (as
     applications do) while the first parser exists.  Every text must give the tree the first parser gives, with true/false/null as
     literals, and must round-trip through the dump."""
@@ -477,7 +477,9 @@ def second_parser_phase(ctx, env, items):
     second.tc = ("lark.Tree" if env.tc == "TranspilerTree" else "TranspilerTree") + " (second parser of the process)"
     acc.extra["tree_classes"] = acc.extra.get("tree_classes", []) + [second.tc]
     texts = KEYWORD_TEXTS + HAND + [it["expr"] for j, it in enumerate(items) if (j % max(1, ctx.nworkers * 3)) == ctx.worker]
-    for _ in range(ctx.scale(800, 16000)):
+    if only is not None:
+        texts = list(only)
+    for _ in range(ctx.scale(800, 16000) if only is None else 0):
         t = rand_tree(rnd, rnd.randint(1, 6), rnd.choice([0.3, 0.8]))
         try:
             texts.append(lang.to_text(t))
@@ -571,12 +573,7 @@ def replay(case):
             def scale(self, a, b):
                 return 1
 
-        saved = KEYWORD_TEXTS[:]
-        KEYWORD_TEXTS[:] = [text]
-        try:
-            second_parser_phase(C(), env, [])
-        finally:
-            KEYWORD_TEXTS[:] = saved
+        second_parser_phase(C(), env, [], only=[text])
         return not acc.violations, f"{text!r}\n" + "\n".join(v["what"] for v in acc.violations[:3])
     if case["kind"] in ("roundtrip", "text"):
         check_text(env, text, "replay")
